@@ -58,6 +58,26 @@ pub fn main_with(reg: Registry, extra: serde_json::Map<String, serde_json::Value
     if let Some(path) = &args.replay {
         return common::replay(&ctx, &reg, path);
     }
+    // generator self-check: attribute-free control programs on fault-free payloads must trivially agree
+    // with the model; if they do not, the harness (generator / model / projection) is wrong, not deserr
+    for s in reg.subjects.iter().filter(|s| s.has("control")) {
+        for i in 0..10u64 {
+            let p = common::valid_case(&reg, s.as_ref(), 12345, i, 2);
+            let run = s.run_ov(&p, monitor::Script::Continue);
+            let a = common::Aspects { value: true, reports: true, handovers: false, examined: false, calls: false };
+            if let Some(d) = common::model_check(&reg, s.as_ref(), &p, common::Source::Ov, &run, &a) {
+                println!(
+                    "INCONCLUSIVE property={} reason=generator self-check failed on control program {} ({}: {}) payload {}",
+                    args.property,
+                    s.name(),
+                    d.rule,
+                    d.detail,
+                    p.show()
+                );
+                return 2;
+            }
+        }
+    }
     match args.property.as_str() {
         "C01" => c01::run(&ctx, &reg),
         "C02" => c02::run(&ctx, &reg),
